@@ -62,6 +62,11 @@ int main(int argc, char **argv){
   // ---- quadrature
   std::vector<double> w0 = g0.getQuadratureWeights(), w1 = g1.getQuadratureWeights(); double qf = qfactor();
   for (int i=0;i<n;i++) fpsym_eq(w1[i], w0[i] * qf, big * big, "quadrature weights scale by the documented factor");
+  { // the transform travels with the grid: a copy and a grid restored from a stream behave the same
+    TasmanianSparseGrid g1c(g1); std::vector<double> wc = g1c.getQuadratureWeights(), pc = g1c.getPoints();
+    for (int i=0;i<n;i++) fpsym_eq(wc[i], w0[i] * qf, big * big, "quadrature weights of a COPY of the transformed grid scale by the documented factor");
+    for (int i=0;i<n;i++) for (int j=0;j<d;j++) fpsym_eq(pc[(size_t) i * d + j], T(j, p0[(size_t) i * d + j]), big, "getPoints() of a COPY of the transformed grid are the mapped canonical points");
+  }
   if (outs > 0){
     SymModel model(outs, 1000, -1.0, 1.0, g.family != "wavelet");
     std::vector<double> vals = model.values(p0, d);     // same values at corresponding points
